@@ -50,13 +50,17 @@ CONSTANTS
                  \* True / False / None;  "off+true", "off+false": resolve_aliases=False with the (unread) option set
   StubModes,     \* subset of {"none","inpkg","ext","find","find+ext"}: find_stubs_package and where the stubs are
   Layouts,       \* subset of {"flat","chain"}: p.a and p.b siblings / p.a a sub-package containing p.a.b
-  Tops,          \* kinds of the top-level module p: py pyi so xc ns sofile missing
+  Entries,       \* subset of {"load", "load_git"}: the caller of the protocol; load_git checks the package out of a
+                 \* git repository into a temporary worktree and forwards its options to load()
+  Tops,          \* kinds of the top-level module p: py pyi so xc ns sofile zip missing
+                 \*   zip = a source package inside a zip archive on the search path: invisible to the finder, importable
   KidsA, KidsB,  \* kinds of the sub-modules a, b: py pyi so xc missing both (both = x.py with its stub file x.pyi next to it)
                  \*   so = compiled, importable here (.so, tagged .so, .abi3.so, sourceless .pyc)
                  \*   xc = compiled for the finder, not importable by this CPython (.pyd, tagged .pyd, .pyo)
   Submods,       \* subset of BOOLEAN: the `submodules` argument of load()
   ObjSpecs,      \* how the package is named in the call: "name" ("p", try_relative_path=False), "relpath" ("p" with
-                 \* try_relative_path=True and the search directory as cwd), "abspath" (a pathlib.Path to the package directory)
+                 \* try_relative_path=True and the search directory as cwd), "abspath" (a pathlib.Path to the package directory),
+                 \* "dotted" (the path of an object inside the package: "p.X")
   PathMuts,      \* what every executable module body does to sys.path before anything can fail:
                  \*   "none" | "inplace" (insert/append on the list it sees) | "rebind" (sys.path = [vendor, *sys.path])
   TopFaults, KidFaults, ExtFaults,   \* fault kinds tried on executable modules (always contain "none")
@@ -64,7 +68,7 @@ CONSTANTS
   ExtPrivates,   \* subset of BOOLEAN: the external package is the private sibling _p
   ExtKinds,      \* py (q.py), sofile (compiled single-file module), missing
   Bugs           \* subset of {"none", "allowFirst", "noReraise", "noFinally", "stubsDynamic", "externalInspect",
-                 \*            "pydInspected", "guardedRestore"}
+                 \*            "pydInspected", "guardedRestore", "probeOnMiss", "gitDropsAllow"}
 
 VARIABLES
   cfg,          \* the case (constant during the behaviour)
@@ -84,6 +88,7 @@ VARIABLES
   loaded,       \* packages in the modules collection
   todo,         \* sub-modules still to be offered by the finder
   offered, skipped, nsparents, failures,
+  wt,           \* load_git: the temporary worktree: none / present / removed
   outcome,      \* "none" until the call ends: Return / ModuleNotFoundError / ImportError / LoadingError
   lastev        \* the event published by the last action (what the taps record)
 
@@ -91,21 +96,24 @@ ctl      == <<pc, lstack, cur, role, dyn, exc>>
 pathvars == <<sysPath, savedPath, dirty>>
 impvars  == <<sysModules, executed>>
 treevars == <<agent, members, loaded, todo, offered, skipped, nsparents, failures>>
-vars     == <<cfg, ctl, pathvars, impvars, treevars, outcome, lastev>>
+vars     == <<cfg, ctl, pathvars, impvars, treevars, wt, outcome, lastev>>
 
 None == "none"
 Mods == {"p", "a", "b", "q", "s", "as", "bs"}   \* s = the stubs of p (in-package __init__.pyi or the p-stubs package);
                                                 \* as / bs = the stub file next to a.py / b.py (kind "both")
 
 \* ---- the case ------------------------------------------------------------------------------------
-Static == ~cfg.allow /\ ~cfg.force
+Static == ~cfg.allow /\ ~cfg.force               \* what the caller asked for: the antecedent of the property
 Bug == cfg.bug
+\* what the loader object is configured with (load_git forwards the caller's options)
+LoaderAllow == IF Bug = "gitDropsAllow" /\ cfg.entry = "load_git" THEN TRUE ELSE cfg.allow
+LoaderStatic == ~LoaderAllow /\ ~cfg.force
 FileOf(m) ==
   CASE m \in {"p", "a", "b"} -> (IF cfg.file[m] = "both" THEN "py" ELSE cfg.file[m])
     [] m = "q" -> IF cfg.extstyle = None THEN "missing" ELSE cfg.extkind
     [] OTHER -> "pyi"
 Compiled(m) == FileOf(m) \in {"so", "sofile", "xc"}
-Executable(m) == FileOf(m) \in {"py", "so", "sofile"}
+Executable(m) == FileOf(m) \in {"py", "so", "sofile", "zip"}
 FaultOf(m) == IF m \in {"p", "a", "b", "q"} THEN cfg.fault[m] ELSE None
 Kids == {m \in {"a", "b"} : cfg.file[m] # "missing"}           \* files yielded by finder.submodules(p)
           \cup (IF cfg.file.a = "both" THEN {"as"} ELSE {}) \cup (IF cfg.file.b = "both" THEN {"bs"} ELSE {})
@@ -113,7 +121,7 @@ Depth(m) == IF m \in {"b", "bs"} /\ cfg.layout = "chain" THEN 2 ELSE 1
 
 \* ---- CPython: what the import system sees ----------------------------------------------------------
 PyKind(m) ==     \* exec: a file whose code runs on import; ns: a directory without such a file; absent
-  CASE m = "p" -> IF cfg.file.p \in {"py", "so", "sofile"} THEN "exec"
+  CASE m = "p" -> IF cfg.file.p \in {"py", "so", "sofile", "zip"} THEN "exec"
                   ELSE IF cfg.file.p \in {"pyi", "ns", "xc"} THEN "ns" ELSE "absent"
     [] m = "a" -> IF FileOf("a") \in {"py", "so"} THEN "exec"
                   ELSE IF cfg.layout = "chain" /\ (cfg.file.a \in {"pyi", "xc"} \/ cfg.file.b # "missing") THEN "ns" ELSE "absent"
@@ -159,9 +167,9 @@ Ladder(m, isNs, r, pkg) ==
   ELSE IF Bug = "externalInspect" /\ pkg = "q" THEN "inspect"
   ELSE IF cfg.force THEN "inspect"
   ELSE IF Bug = "pydInspected" /\ FileOf(m) = "xc" THEN "inspect"       \* refusal by an enumerated suffix set that forgets one
-  ELSE IF Bug = "allowFirst" /\ cfg.allow THEN "inspect"
+  ELSE IF Bug = "allowFirst" /\ LoaderAllow THEN "inspect"
   ELSE IF Source(m) THEN "visit"
-  ELSE IF cfg.allow THEN "inspect"
+  ELSE IF LoaderAllow THEN "inspect"
   ELSE "refuse"
 
 \* ---- helpers ---------------------------------------------------------------------------------------
@@ -206,7 +214,8 @@ ResolvePc1(ag, ld) ==
   IF cfg.extstyle = "star" /\ HolderIn(ag) /\ "q" \notin ld /\ Allowed THEN "ResolveWild" ELSE ResolvePc2(ag, ld)
 
 \* ---- initial states: the case space ------------------------------------------------------------------
-FaultsFor(kind, set) == IF kind \in {"py", "so", "sofile", "both"} THEN set ELSE {None}
+FaultsFor(kind, set) == IF kind \in {"py", "so", "sofile", "zip", "both"} THEN set ELSE {None}
+NoDir == {"sofile", "zip", "missing"}
 AllowOf(x) == x \in {"a-", "af"}
 ForceOf(x) == x \in {"-f", "af"}
 ResolveOf(x) == x \in {"true", "false", "none"}
@@ -215,23 +224,24 @@ FindStubsOf(x) == x \in {"find", "find+ext"}
 StubsOf(x) == CASE x = "inpkg" -> "inpkg" [] x \in {"ext", "find+ext"} -> "ext" [] OTHER -> "none"
 InitCase ==
   /\ \E af \in AllowForce, rs \in Resolves, sm \in StubModes, lay \in Layouts, top \in Tops :
-     \E ka \in (IF top \in {"sofile", "missing"} THEN {"missing"} ELSE KidsA),
-        kb \in (IF top \in {"sofile", "missing"} THEN {"missing"} ELSE KidsB) :
+     \E ka \in (IF top \in NoDir THEN {"missing"} ELSE KidsA),
+        kb \in (IF top \in NoDir THEN {"missing"} ELSE KidsB) :
      \E es \in (IF top \in {"py", "pyi"} THEN ExtStyles ELSE {None}) :
      \E ep \in (IF es = None THEN {FALSE} ELSE ExtPrivates), ek \in (IF es = None THEN {"missing"} ELSE ExtKinds) :
-     \E bg \in Bugs, pm \in PathMuts, sb \in Submods, os \in ObjSpecs :
+     \E bg \in Bugs, pm \in PathMuts, sb \in Submods, os \in ObjSpecs, en \in Entries :
      \E fp \in FaultsFor(top, TopFaults), fa \in FaultsFor(ka, KidFaults), fb \in FaultsFor(kb, KidFaults),
         fq \in FaultsFor(IF es = None THEN "missing" ELSE ek, ExtFaults) :
        /\ (ka = "missing" /\ kb = "missing") => lay = "flat"          \* the layouts coincide
-       /\ top \in {"sofile", "missing"} => lay = "flat"
+       /\ top \in NoDir => lay = "flat"
        /\ sm = "inpkg" => top = "py"
+       /\ (en = "load_git") => (os \in {"name", "dotted"} /\ top # "zip")      \* load_git: try_relative_path=False, string object paths
        /\ cfg = [allow |-> AllowOf(af), force |-> ForceOf(af), resolve |-> ResolveOf(rs), external |-> ExternalOf(rs),
                  findstubs |-> FindStubsOf(sm), stubs |-> StubsOf(sm), layout |-> lay,
                  file |-> [p |-> top, a |-> ka, b |-> kb],
                  extstyle |-> es, extprivate |-> ep, extkind |-> ek,
-                 fault |-> [p |-> fp, a |-> fa, b |-> fb, q |-> fq], pathmut |-> pm, submodules |-> sb, objspec |-> os, bug |-> bg]
+                 fault |-> [p |-> fp, a |-> fa, b |-> fb, q |-> fq], pathmut |-> pm, submodules |-> sb, objspec |-> os, entry |-> en, bug |-> bg]
 InitRun ==
-  /\ pc = "Construct" /\ lstack = <<>> /\ cur = None /\ role = None /\ dyn = NoDyn /\ exc = None
+  /\ pc = (IF cfg.entry = "load_git" THEN "Checkout" ELSE "Construct") /\ wt = None /\ lstack = <<>> /\ cur = None /\ role = None /\ dyn = NoDyn /\ exc = None
   /\ sysPath = "orig" /\ savedPath = <<>> /\ dirty = {} /\ sysModules = {} /\ executed = {}
   /\ agent = [m \in Mods |-> None] /\ members = {} /\ loaded = {} /\ todo = {} /\ offered = {} /\ skipped = {}
   /\ nsparents = {} /\ failures = {} /\ outcome = None
@@ -244,7 +254,7 @@ LoadExtensions ==
   /\ pc = "Construct"
   /\ pc' = "LoadMain"
   /\ Ev([ev |-> "LoadExtensions", touched |-> FALSE])            \* sys_path() without paths leaves sys.path alone
-  /\ UNCHANGED <<cfg, lstack, cur, role, dyn, exc, pathvars, impvars, treevars, outcome>>
+  /\ UNCHANGED <<cfg, wt, lstack, cur, role, dyn, exc, pathvars, impvars, treevars, outcome>>
 
 \* ---- GriffeLoader.load ------------------------------------------------------------------------------
 Push(pkg, ctx) == lstack' = Append(lstack, [pkg |-> pkg, ctx |-> ctx, res |-> None, stubs |-> FALSE, viastubs |-> FALSE])
@@ -252,17 +262,17 @@ LoadMain ==
   /\ pc = "LoadMain"
   /\ Push("p", "main") /\ pc' = "FindSpec"
   /\ Ev([ev |-> "Load", pkg |-> "p"])
-  /\ UNCHANGED <<cfg, cur, role, dyn, exc, pathvars, impvars, treevars, outcome>>
+  /\ UNCHANGED <<cfg, wt, cur, role, dyn, exc, pathvars, impvars, treevars, outcome>>
 ResolveExternal ==
   /\ pc \in {"StubWild", "ResolveWild", "ResolveName"}
   /\ Push("q", CASE pc = "StubWild" -> "stubwild" [] pc = "ResolveWild" -> "rwild" [] OTHER -> "rname")
   /\ pc' = "FindSpec"
   /\ Ev([ev |-> "ResolveExternal", pkg |-> "q"])
-  /\ UNCHANGED <<cfg, cur, role, dyn, exc, pathvars, impvars, treevars, outcome>>
+  /\ UNCHANGED <<cfg, wt, cur, role, dyn, exc, pathvars, impvars, treevars, outcome>>
 
 FindSpec ==
   /\ pc = "FindSpec"
-  /\ LET r == IF Pkg = "p" /\ cfg.objspec = "abspath" /\ cfg.file.p \in {"sofile", "missing"}
+  /\ LET r == IF Pkg = "p" /\ cfg.objspec = "abspath" /\ cfg.file.p \in NoDir
               THEN [res |-> "nofile", stubs |-> FALSE, viastubs |-> FALSE]         \* _module_name_path: the path does not exist
               ELSE FindRes(Pkg) IN
      /\ Ev([ev |-> "FindSpec", pkg |-> Pkg, res |-> r.res, stubs |-> r.stubs, viastubs |-> r.viastubs])
@@ -271,14 +281,19 @@ FindSpec ==
         THEN /\ pc' = "LoadRaise" /\ exc' = "FileNotFoundError"                   \* not a ModuleNotFoundError: escapes load() as it is
              /\ UNCHANGED <<cur, role, dyn>>
         ELSE IF r.res = "notfound"
-        THEN IF Static /\ Bug # "noReraise"
+        THEN IF LoaderStatic /\ Bug # "noReraise"
              THEN /\ pc' = "LoadRaise" /\ exc' = "ModuleNotFoundError"        \* `raise` in the except clause of load()
                   /\ UNCHANGED <<cur, role, dyn>>
              ELSE /\ pc' = "DynImport" /\ dyn' = NewDyn(Pkg, "top")            \* dynamic_import(top_module_name, search_paths)
                   /\ UNCHANGED <<cur, role, exc>>
         ELSE /\ pc' = "ChooseAgent" /\ cur' = (IF r.viastubs THEN "s" ELSE Pkg) /\ role' = "top"
              /\ UNCHANGED <<dyn, exc>>
-  /\ UNCHANGED <<cfg, pathvars, impvars, treevars, outcome>>
+     \* seeded defect probeOnMiss: a spec lookup of the dotted object path before re-raising imports the parent package
+     /\ IF Bug = "probeOnMiss" /\ r.res = "notfound" /\ LoaderStatic /\ cfg.objspec = "dotted" /\ Pkg = "p" /\ PyKind("p") = "exec"
+        THEN /\ executed' = executed \cup {"p"}
+             /\ sysModules' = IF FaultOf("p") = None THEN sysModules \cup {"p"} ELSE sysModules
+        ELSE UNCHANGED impvars
+  /\ UNCHANGED <<cfg, wt, pathvars, treevars, outcome>>
 
 \* ---- _load_module_path --------------------------------------------------------------------------------
 ChooseAgent ==
@@ -298,14 +313,14 @@ ChooseAgent ==
                   /\ IF role = "sub" THEN pc' = "SkipSubmodule" /\ exc' = "refused"
                                      ELSE pc' = "LoadRaise" /\ exc' = "LoadingError"
                   /\ UNCHANGED <<dyn, loaded, todo, members>>
-  /\ UNCHANGED <<cfg, lstack, cur, role, pathvars, impvars, offered, skipped, nsparents, failures, outcome>>
+  /\ UNCHANGED <<cfg, wt, lstack, cur, role, pathvars, impvars, offered, skipped, nsparents, failures, outcome>>
 
 Visit ==
   /\ pc = "Visit"
   /\ LET n == Built(cur, role, agent) IN
      /\ pc' = n.pc /\ loaded' = n.loaded /\ todo' = n.todo /\ members' = n.members
   /\ Ev([ev |-> "Visit", m |-> cur])
-  /\ UNCHANGED <<cfg, lstack, cur, role, dyn, exc, pathvars, impvars, agent, offered, skipped, nsparents, failures, outcome>>
+  /\ UNCHANGED <<cfg, wt, lstack, cur, role, dyn, exc, pathvars, impvars, agent, offered, skipped, nsparents, failures, outcome>>
 
 \* ---- _load_submodule -----------------------------------------------------------------------------------
 Submodule ==
@@ -320,34 +335,34 @@ Submodule ==
                THEN pc' = "CreateNsParent" /\ exc' = exc
                ELSE pc' = "SkipSubmodule" /\ exc' = "unimportable"   \* UnimportableModuleError
           ELSE pc' = "ChooseAgent" /\ exc' = exc
-  /\ UNCHANGED <<cfg, lstack, dyn, pathvars, impvars, agent, members, loaded, skipped, nsparents, failures, outcome>>
+  /\ UNCHANGED <<cfg, wt, lstack, dyn, pathvars, impvars, agent, members, loaded, skipped, nsparents, failures, outcome>>
 
 CreateNsParent ==
   /\ pc = "CreateNsParent"
   /\ nsparents' = nsparents \cup {"a"} /\ pc' = "ChooseAgent"
   /\ Ev([ev |-> "CreateNsParent", name |-> "a"])
-  /\ UNCHANGED <<cfg, lstack, cur, role, dyn, exc, pathvars, impvars, agent, members, loaded, todo, offered, skipped, failures, outcome>>
+  /\ UNCHANGED <<cfg, wt, lstack, cur, role, dyn, exc, pathvars, impvars, agent, members, loaded, todo, offered, skipped, failures, outcome>>
 
 SkipSubmodule ==
   /\ pc = "SkipSubmodule"
   /\ skipped' = skipped \cup {cur}
   /\ pc' = NextSubPc(todo, agent, loaded) /\ exc' = None
   /\ Ev([ev |-> "SkipSubmodule", m |-> cur, why |-> IF exc = "unimportable" THEN "unimportable" ELSE "error"])
-  /\ UNCHANGED <<cfg, lstack, cur, role, dyn, pathvars, impvars, agent, members, loaded, todo, offered, nsparents, failures, outcome>>
+  /\ UNCHANGED <<cfg, wt, lstack, cur, role, dyn, pathvars, impvars, agent, members, loaded, todo, offered, nsparents, failures, outcome>>
 
 \* ---- importer.dynamic_import / importer.sys_path / CPython import -----------------------------------------
 DynImport ==
   /\ pc = "DynImport"
   /\ pc' = "EnterSysPath"
   /\ Ev([ev |-> "DynImport", m |-> dyn.target])
-  /\ UNCHANGED <<cfg, lstack, cur, role, dyn, exc, pathvars, impvars, treevars, outcome>>
+  /\ UNCHANGED <<cfg, wt, lstack, cur, role, dyn, exc, pathvars, impvars, treevars, outcome>>
 
 EnterSysPath ==                                    \* old_path = sys.path; sys.path = [search paths]
   /\ pc = "EnterSysPath"
   /\ savedPath' = Append(savedPath, sysPath) /\ sysPath' = "search" /\ dirty' = dirty \ {"search"}      \* a fresh list every time
   /\ pc' = "TryImport"
   /\ Ev([ev |-> "EnterSysPath", replaced |-> TRUE])
-  /\ UNCHANGED <<cfg, lstack, cur, role, dyn, exc, impvars, treevars, outcome>>
+  /\ UNCHANGED <<cfg, wt, lstack, cur, role, dyn, exc, impvars, treevars, outcome>>
 
 TryImport ==                                       \* import_module(".".join(module_parts))
   /\ pc = "TryImport"
@@ -356,7 +371,7 @@ TryImport ==                                       \* import_module(".".join(mod
      /\ dyn' = [dyn EXCEPT !.q = r.q, !.failed = r.failed, !.bad = None]
   /\ pc' = "Importing"
   /\ Ev([ev |-> "TryImport", m |-> dyn.t])
-  /\ UNCHANGED <<cfg, lstack, cur, role, exc, pathvars, executed, treevars, outcome>>
+  /\ UNCHANGED <<cfg, wt, lstack, cur, role, exc, pathvars, executed, treevars, outcome>>
 
 Import ==                                          \* the body of a module starts executing
   /\ pc = "Importing" /\ ~dyn.failed /\ dyn.q # <<>>
@@ -373,7 +388,7 @@ Import ==                                          \* the body of a module start
         ELSE LET r == Settle(Tail(dyn.q), sysModules \cup {m}) IN
              /\ sysModules' = r.sm
              /\ dyn' = [dyn EXCEPT !.q = r.q, !.failed = r.failed]
-  /\ UNCHANGED <<cfg, pc, lstack, cur, role, exc, treevars, outcome>>
+  /\ UNCHANGED <<cfg, wt, pc, lstack, cur, role, exc, treevars, outcome>>
 
 ImportOk ==
   /\ pc = "Importing" /\ ~dyn.failed /\ dyn.q = <<>>
@@ -381,7 +396,7 @@ ImportOk ==
   /\ pc' = "ExitSysPath"
   \* a parent was importable but the attribute lookup of the remaining parts fails: ImportError inside the with block
   /\ dyn' = [dyn EXCEPT !.raising = (dyn.t # dyn.target)]
-  /\ UNCHANGED <<cfg, lstack, cur, role, exc, pathvars, impvars, treevars, outcome>>
+  /\ UNCHANGED <<cfg, wt, lstack, cur, role, exc, pathvars, impvars, treevars, outcome>>
 
 ImportFail ==                                      \* except BaseException: RuntimeError, SystemExit, ModuleNotFoundError alike
   /\ pc = "Importing" /\ dyn.failed
@@ -390,7 +405,7 @@ ImportFail ==                                      \* except BaseException: Runt
   /\ IF PyParent(dyn.t) # None
      THEN /\ pc' = "TryImport" /\ dyn' = [dyn EXCEPT !.t = PyParent(dyn.t), !.failed = FALSE, !.bad = None]
      ELSE /\ pc' = "ExitSysPath" /\ dyn' = [dyn EXCEPT !.raising = TRUE, !.failed = FALSE, !.bad = None]     \* raise ImportError
-  /\ UNCHANGED <<cfg, lstack, cur, role, exc, pathvars, executed, treevars, outcome>>
+  /\ UNCHANGED <<cfg, wt, lstack, cur, role, exc, pathvars, executed, treevars, outcome>>
 
 ExitSysPath ==                                     \* finally: sys.path = old_path
   /\ pc = "ExitSysPath"
@@ -400,14 +415,20 @@ ExitSysPath ==                                     \* finally: sys.path = old_pa
      IN /\ sysPath' = np /\ savedPath' = Front(savedPath) /\ dirty' = dirty
         /\ Ev([ev |-> "ExitSysPath", restored |-> restore, by |-> IF dyn.raising THEN "exception" ELSE "normal"])
   /\ pc' = IF dyn.raising THEN "DynImportFail" ELSE "DynImportOk"
-  /\ UNCHANGED <<cfg, lstack, cur, role, dyn, exc, impvars, treevars, outcome>>
+  /\ UNCHANGED <<cfg, wt, lstack, cur, role, dyn, exc, impvars, treevars, outcome>>
 
 DynImportOk ==
   /\ pc = "DynImportOk"
   /\ Ev([ev |-> "DynImportOk", m |-> dyn.target])
-  /\ pc' = IF dyn.ctx = "top" THEN "InspectTop" ELSE "Inspected"
+  \* load(): the dynamically imported top-level module has a __path__ (package in a zip archive): a Package is built from
+  \* it and loaded through the ladder; otherwise (single-file compiled module) it is inspected as it is
+  /\ IF dyn.ctx = "top" /\ FileOf(dyn.target) = "zip"
+     THEN /\ pc' = "ChooseAgent" /\ cur' = dyn.target /\ role' = "top"
+          /\ lstack' = [lstack EXCEPT ![Len(lstack)] = [@ EXCEPT !.res = "package"]]
+     ELSE /\ pc' = IF dyn.ctx = "top" THEN "InspectTop" ELSE "Inspected"
+          /\ UNCHANGED <<lstack, cur, role>>
   /\ dyn' = NoDyn
-  /\ UNCHANGED <<cfg, lstack, cur, role, exc, pathvars, impvars, treevars, outcome>>
+  /\ UNCHANGED <<cfg, wt, exc, pathvars, impvars, treevars, outcome>>
 
 DynImportFail ==
   /\ pc = "DynImportFail"
@@ -415,7 +436,7 @@ DynImportFail ==
   /\ IF dyn.ctx = "top" THEN pc' = "LoadRaise" /\ exc' = "ImportError"      \* escapes load() as it is
                         ELSE pc' = "InspectFail" /\ exc' = "ImportError"
   /\ dyn' = NoDyn
-  /\ UNCHANGED <<cfg, lstack, cur, role, pathvars, impvars, treevars, outcome>>
+  /\ UNCHANGED <<cfg, wt, lstack, cur, role, pathvars, impvars, treevars, outcome>>
 
 \* ---- _inspect_module ----------------------------------------------------------------------------------
 InspectTop ==          \* load(): the dynamically imported top-level module has no __path__: inspect it as it is
@@ -423,27 +444,27 @@ InspectTop ==          \* load(): the dynamically imported top-level module has 
   /\ cur' = Pkg /\ role' = "dyntop"
   /\ pc' = "DynImport" /\ dyn' = NewDyn(Pkg, "inspect")
   /\ Ev([ev |-> "InspectTop", m |-> Pkg])
-  /\ UNCHANGED <<cfg, lstack, exc, pathvars, impvars, treevars, outcome>>
+  /\ UNCHANGED <<cfg, wt, lstack, exc, pathvars, impvars, treevars, outcome>>
 
 Inspected ==
   /\ pc = "Inspected"
   /\ LET n == Built(cur, role, agent) IN
      /\ pc' = n.pc /\ loaded' = n.loaded /\ todo' = n.todo /\ members' = n.members
   /\ Ev([ev |-> "Inspected", m |-> cur])
-  /\ UNCHANGED <<cfg, lstack, cur, role, dyn, exc, pathvars, impvars, agent, offered, skipped, nsparents, failures, outcome>>
+  /\ UNCHANGED <<cfg, wt, lstack, cur, role, dyn, exc, pathvars, impvars, agent, offered, skipped, nsparents, failures, outcome>>
 
 InspectFail ==
   /\ pc = "InspectFail"
   /\ Ev([ev |-> "InspectFail", m |-> cur])
   /\ pc' = IF role = "dyntop" THEN "LoadRaise" ELSE "WrapError"
-  /\ UNCHANGED <<cfg, lstack, cur, role, dyn, exc, pathvars, impvars, treevars, outcome>>
+  /\ UNCHANGED <<cfg, wt, lstack, cur, role, dyn, exc, pathvars, impvars, treevars, outcome>>
 
 WrapError ==           \* _load_module: except ImportError -> LoadingError
   /\ pc = "WrapError"
   /\ Ev([ev |-> "WrapError", m |-> cur, frm |-> exc, to |-> "LoadingError"])
   /\ exc' = "LoadingError"
   /\ pc' = IF role = "sub" THEN "SkipSubmodule" ELSE "LoadRaise"          \* _load_submodule swallows it, load() does not
-  /\ UNCHANGED <<cfg, lstack, cur, role, dyn, pathvars, impvars, treevars, outcome>>
+  /\ UNCHANGED <<cfg, wt, lstack, cur, role, dyn, pathvars, impvars, treevars, outcome>>
 
 \* ---- _load_package: the stubs pass ------------------------------------------------------------------------
 StubPass ==
@@ -454,19 +475,32 @@ StubPass ==
         /\ Ev([ev |-> "ChooseAgent", m |-> "s", agent |-> ag])
         /\ IF ag = "visit" THEN pc' = "Visit" /\ dyn' = dyn
                            ELSE pc' = "DynImport" /\ dyn' = NewDyn("p", "inspect")
-  /\ UNCHANGED <<cfg, lstack, exc, pathvars, impvars, members, loaded, todo, offered, skipped, nsparents, failures, outcome>>
+  /\ UNCHANGED <<cfg, wt, lstack, exc, pathvars, impvars, members, loaded, todo, offered, skipped, nsparents, failures, outcome>>
 
 \* ---- the end of a GriffeLoader.load call ------------------------------------------------------------------------
 Pop == lstack' = Front(lstack)
+\* _post_load: modules_collection.get_member(obj_path).  "p.X" exists when p was visited (every source / stub defines X) or
+\* inspected from a module that really ran; a namespace module (created, or imported from a directory without code) has no X
+ObjectPresent ==
+  \/ agent["p"] = "visit" \/ agent["s"] = "visit"
+  \/ (PyKind("p") = "exec" /\ "p" \in sysModules /\ (agent["p"] = "inspect" \/ agent["s"] = "inspect" \/ Top.res = "notfound"))
+MissingObject == Top.ctx = "main" /\ cfg.objspec = "dotted" /\ ~ObjectPresent
+
+LoadMissing ==         \* KeyError out of _post_load
+  /\ pc = "LoadReturn" /\ MissingObject
+  /\ Ev([ev |-> "LoadRaise", pkg |-> Pkg, exc |-> "KeyError", path_ok |-> PathOk])
+  /\ Pop /\ pc' = "Raise" /\ exc' = "KeyError"
+  /\ UNCHANGED <<cfg, wt, cur, role, dyn, pathvars, impvars, treevars, outcome>>
+
 LoadReturn ==
-  /\ pc = "LoadReturn"
+  /\ pc = "LoadReturn" /\ ~MissingObject
   /\ Ev([ev |-> "LoadReturn", pkg |-> Pkg, path_ok |-> PathOk])
   /\ Pop
   /\ pc' = CASE Top.ctx = "main" -> (IF cfg.resolve THEN ResolvePc1(agent, loaded) ELSE "Return")
              [] Top.ctx = "stubwild" -> "StubPass"
              [] Top.ctx = "rwild" -> ResolvePc2(agent, loaded)
              [] OTHER -> "Return"
-  /\ UNCHANGED <<cfg, cur, role, dyn, exc, pathvars, impvars, treevars, outcome>>
+  /\ UNCHANGED <<cfg, wt, cur, role, dyn, exc, pathvars, impvars, treevars, outcome>>
 
 LoadRaise ==
   /\ pc = "LoadRaise"
@@ -479,18 +513,28 @@ LoadRaise ==
           /\ pc' = CASE Top.ctx = "stubwild" -> "StubPass"
                      [] Top.ctx = "rwild" -> ResolvePc2(agent, loaded)
                      [] OTHER -> "Return"
-  /\ UNCHANGED <<cfg, cur, role, dyn, pathvars, impvars, agent, members, loaded, todo, offered, skipped, nsparents, outcome>>
+  /\ UNCHANGED <<cfg, wt, cur, role, dyn, pathvars, impvars, agent, members, loaded, todo, offered, skipped, nsparents, outcome>>
+
+\* ---- load_git: tmp_worktree around the same protocol -----------------------------------------------------------------
+Checkout ==
+  /\ pc = "Checkout" /\ wt' = "present" /\ pc' = "Construct"
+  /\ Ev([ev |-> "Checkout"])
+  /\ UNCHANGED <<cfg, lstack, cur, role, dyn, exc, pathvars, impvars, treevars, outcome>>
+Cleanup ==              \* the finally of tmp_worktree, whatever load() did
+  /\ pc \in {"Return", "Raise"} /\ wt = "present" /\ wt' = "removed"
+  /\ Ev([ev |-> "Cleanup", path_ok |-> PathOk])
+  /\ UNCHANGED <<cfg, ctl, pathvars, impvars, treevars, outcome>>
 
 Return ==
-  /\ pc = "Return"
+  /\ pc = "Return" /\ wt # "present"
   /\ outcome' = "Return" /\ pc' = "Done"
   /\ Ev([ev |-> "Return", path_ok |-> PathOk])
-  /\ UNCHANGED <<cfg, lstack, cur, role, dyn, exc, pathvars, impvars, treevars>>
+  /\ UNCHANGED <<cfg, wt, lstack, cur, role, dyn, exc, pathvars, impvars, treevars>>
 Raise ==
-  /\ pc = "Raise"
+  /\ pc = "Raise" /\ wt # "present"
   /\ outcome' = exc /\ pc' = "Done"
   /\ Ev([ev |-> "Raise", exc |-> exc, path_ok |-> PathOk])
-  /\ UNCHANGED <<cfg, lstack, cur, role, dyn, exc, pathvars, impvars, treevars>>
+  /\ UNCHANGED <<cfg, wt, lstack, cur, role, dyn, exc, pathvars, impvars, treevars>>
 
 Finished == pc = "Done" /\ UNCHANGED vars           \* so that TLC's deadlock check means: the protocol never gets stuck
 
@@ -499,7 +543,7 @@ Step ==
   \/ Submodule \/ CreateNsParent \/ SkipSubmodule
   \/ DynImport \/ EnterSysPath \/ TryImport \/ Import \/ ImportOk \/ ImportFail \/ ExitSysPath
   \/ DynImportOk \/ DynImportFail \/ InspectTop \/ Inspected \/ InspectFail \/ WrapError \/ StubPass
-  \/ LoadReturn \/ LoadRaise \/ Return \/ Raise
+  \/ LoadReturn \/ LoadMissing \/ LoadRaise \/ Return \/ Raise \/ Checkout \/ Cleanup
 Next == Step \/ Finished
 Spec == Init /\ [][Next]_vars
 
@@ -530,8 +574,9 @@ Balanced == /\ Len(savedPath) <= 1
 ExecOnlyUnderSwap == [][executed' # executed => (sysPath # "orig" /\ savedPath # <<>> /\ ~Static)]_vars
 \* (5) the only ways out: the documented exception classes; SystemExit never escapes
 OutcomeLegal ==
-  /\ outcome \in {None, "Return", "ModuleNotFoundError", "ImportError", "LoadingError", "FileNotFoundError"}
-  /\ (outcome = "ModuleNotFoundError") => Static          \* re-raised iff inspection is disallowed
+  /\ outcome \in {None, "Return", "ModuleNotFoundError", "ImportError", "LoadingError", "FileNotFoundError", "KeyError"}
+  /\ (outcome = "KeyError") => cfg.objspec = "dotted"              \* the object path names nothing in the loaded package
+  /\ (outcome = "ModuleNotFoundError") => LoaderStatic          \* re-raised iff inspection is disallowed
   /\ (outcome = "FileNotFoundError") => (cfg.objspec = "abspath" /\ executed = {})    \* documented for Path arguments
   /\ (Static /\ pc = "Done" /\ FindRes("p").res = "notfound") => outcome \in {"ModuleNotFoundError", "FileNotFoundError"}
 TypeOK ==
@@ -548,6 +593,9 @@ CatchStubsDynamic == Bug = "stubsDynamic" => NoExecutionWhenStatic
 CatchExternalInspect == Bug = "externalInspect" => NoExecutionWhenStatic
 CatchPydInspected == Bug = "pydInspected" => (NoExecutionWhenStatic /\ CompiledSkippedWhenStatic)
 CatchGuardedRestore == Bug = "guardedRestore" => PathRestoredAtEnd
+CatchProbeOnMiss == Bug = "probeOnMiss" => NoExecutionWhenStatic
+CatchGitDropsAllow == Bug = "gitDropsAllow" => (NoExecutionWhenStatic /\ CompiledSkippedWhenStatic)
+WorktreeRemoved == pc = "Done" => wt # "present"
 
 \* every terminal state is printed: one implementation test per case (gverif/props/c15.py replays it)
 EmitCase ==
